@@ -872,6 +872,17 @@ func (c *Ctx) ruleCensus(scope []*ssa.Function, rules map[string]bool) {
 			if !rules[site.rule] {
 				continue
 			}
+			if c.censusOnly != nil {
+				var ds []string
+				for _, f := range failed[site.instr] {
+					if f.site.what == site.what {
+						ds = append(ds, f.detail)
+					}
+				}
+				if !c.censusOnly(site.what, strings.Join(ds, "; ")) {
+					continue
+				}
+			}
 			counts[site.rule]++
 			pos := c.p.instrPos(site.instr)
 			if fs := failed[site.instr]; len(fs) > 0 {
@@ -915,6 +926,9 @@ func (c *Ctx) ruleCensus(scope []*ssa.Function, rules map[string]bool) {
 					}
 				}
 				if !rules[rule] {
+					continue
+				}
+				if c.censusOnly != nil && !c.censusOnly("entry", rq.origin) {
 					continue
 				}
 				if m.PtrRecv && rq.fact.Kind == aNN && rq.fact.T.K == "P" && rq.fact.T.N == 0 {
